@@ -181,8 +181,12 @@ def oracle_T(line, out):
         s = b + d
         why = _wall_expect(s, r)
         if why and (not (-2 ** 63 <= sec * 10 ** 9 < 2 ** 63) or not (-2 ** 63 <= b < 2 ** 63)):
-            # the timespec alone is beyond the int64 nanosecond range: the library saturates it before it looks at delta (finding F36)
-            return "far-timespec: " + why
+            # the timespec alone is beyond the int64 nanosecond range: the library saturates it before it looks at delta (finding F36).
+            # Only THAT answer - FOREVER for a far-future timespec, "elapsed" for a far-past one - is the known finding; any other wrong
+            # answer on such an input is a different failure
+            if r == (FOREVER if sec >= 0 else WALLNOW):
+                return "far-timespec: " + why
+            return "wrong-on-far-timespec: " + why
         return why
     if f[0] == "WN":
         nw, d = map(int, f[1:])
@@ -237,10 +241,13 @@ def run(ctx):
     for l, r, why in bad[:5]:
         ctx.violation("dispatch_time arithmetic: %s on input `%s` -> %s" % (why, l, r), {"line": l, "real": r, "why": why, "harness": "harness/lfn.c"},
                       signature="time:" + l.split()[0] + ":" + why.split()[0])
-    if diffs and not bad:
-        for l, r, m in diffs[:3]:
-            ctx.broken("L-fn correspondence time.c vs TimeP (input `%s`: real %s, model %s)" % (l, r, m))
-    elif diffs:
+    # a difference on an input the oracle has already judged is that violation seen a second time; any other difference is a broken
+    # correspondence in its own right (the instances of the known finding F36 are always among `bad`: they must not hide it)
+    judged = {l for l, _, _ in bad}
+    unexplained = [d for d in diffs if d[0] not in judged]
+    for l, r, m in unexplained[:3]:
+        ctx.broken("L-fn correspondence time.c vs TimeP (input `%s`: real %s, model %s)" % (l, r, m))
+    if diffs:
         ctx.cov["layers"]["L-fn time"]["model_diffs"] = len(diffs)
 
     # the waits themselves, on every clock (past deadlines return at once; a deadline 40 ms ahead is honoured)
